@@ -23,6 +23,19 @@ pub struct WatchSlot {
     pub started: Option<Instant>,
     pub events: Vec<String>,
     pub note: String,
+    /// kernel id of the worker thread (its CPU time is read from /proc by the watchdog)
+    pub tid: u64,
+}
+
+/// CPU time (user + system) consumed so far by thread `tid` of this process, in seconds.
+fn thread_cpu_seconds(tid: u64) -> Option<f64> {
+    let stat = std::fs::read_to_string(format!("/proc/self/task/{}/stat", tid)).ok()?;
+    // fields after the parenthesised command name; utime and stime are fields 14 and 15
+    let rest = stat.rsplit_once(')')?.1;
+    let f: Vec<&str> = rest.split_whitespace().collect();
+    let utime: f64 = f.get(11)?.parse().ok()?;
+    let stime: f64 = f.get(12)?.parse().ok()?;
+    Some((utime + stime) / 100.0)
 }
 
 static SLOTS: std::sync::Mutex<Vec<std::sync::Arc<std::sync::Mutex<WatchSlot>>>> = std::sync::Mutex::new(vec![]);
@@ -30,7 +43,8 @@ pub static HOST_CALLS: std::sync::atomic::AtomicU64 = std::sync::atomic::AtomicU
 
 thread_local! {
     static MY_SLOT: std::sync::Arc<std::sync::Mutex<WatchSlot>> = {
-        let s = std::sync::Arc::new(std::sync::Mutex::new(WatchSlot { started: None, events: vec![], note: String::new() }));
+        let tid = std::fs::read_link("/proc/thread-self").ok().and_then(|p| p.file_name().and_then(|n| n.to_str().and_then(|s| s.parse::<u64>().ok()))).unwrap_or(0);
+        let s = std::sync::Arc::new(std::sync::Mutex::new(WatchSlot { started: None, events: vec![], note: String::new(), tid }));
         SLOTS.lock().unwrap().push(s.clone());
         s
     };
@@ -75,16 +89,37 @@ pub fn watch_text<T>(kind: &str, text: &str, f: impl FnOnce() -> T) -> T {
     r
 }
 
-/// Starts the watchdog. A call in flight for more than `limit_s` seconds is a violation of
-/// "always hands control back": it is reported and the process exits with status 1.
+/// Starts the watchdog. A call that has been in flight for more than `limit_s` seconds *of its
+/// thread's CPU time* is a violation of "always hands control back": it is reported and the
+/// process exits with status 1. (The subject computes and never blocks, so CPU time is what a
+/// call that does not return consumes; wall time alone would turn a busy machine, on which a
+/// worker may not be scheduled for a long while, into a verdict. Where the thread's CPU time
+/// cannot be read, ten times the limit in wall time is used.)
 pub fn start_watchdog(property: String, tier: String, level: String, limit_s: u64) {
-    std::thread::spawn(move || loop {
+    std::thread::spawn(move || {
+        // call in flight (identified by its start instant) -> CPU seconds of its thread when first seen
+        let mut first_seen: std::collections::HashMap<(u64, Instant), f64> = std::collections::HashMap::new();
+        loop {
         std::thread::sleep(std::time::Duration::from_millis(500));
         let slots: Vec<_> = SLOTS.lock().unwrap().iter().cloned().collect();
+        let mut live: std::collections::HashSet<(u64, Instant)> = std::collections::HashSet::new();
         for s in slots {
             let (stuck, events, note) = {
                 let g = s.lock().unwrap();
-                (g.started.map(|t| t.elapsed().as_secs() >= limit_s).unwrap_or(false), g.events.clone(), g.note.clone())
+                let stuck = match g.started {
+                    Some(t) if t.elapsed().as_secs() >= 1 => {
+                        live.insert((g.tid, t));
+                        match thread_cpu_seconds(g.tid) {
+                            Some(now) => {
+                                let base = *first_seen.entry((g.tid, t)).or_insert(now);
+                                now - base >= limit_s as f64
+                            }
+                            None => t.elapsed().as_secs() >= 10 * limit_s,
+                        }
+                    }
+                    _ => false,
+                };
+                (stuck, g.events.clone(), g.note.clone())
             };
             if !stuck {
                 continue;
@@ -107,6 +142,8 @@ pub fn start_watchdog(property: String, tier: String, level: String, limit_s: u6
             });
             let _ = std::fs::write(format!("{}/evidence/{}.json", crate::VERIF_DIR, property), serde_json::to_string_pretty(&ev).unwrap());
             std::process::exit(1);
+        }
+        first_seen.retain(|k, _| live.contains(k));
         }
     });
 }
